@@ -268,6 +268,27 @@ theorem history_lookup_wire_repaired (ops : List (Op Spec.Flow))
     (fun e he => ⟨(hadd e he).1, Variant.FlowOk.mk (hadd e he).2.1 (fun h => absurd h (by decide)) (hadd e he).2.2
                                   (fun h => absurd h (by decide))⟩) p port hr hpt
 
+/-! ## sequences of lookups -/
+
+/-- **Lookup is a function of (table, frame).**  In a sequence of lookups on one table — no table operation in between — every
+    answer is the answer that frame gets on its own, whatever was looked up before or after it.  (Trivial in the model, which keeps
+    no state between lookups; the correspondence drives the real `FlowTable` with such sequences — frames differing in exactly one of
+    the twelve fields, both orders — so that any state the code keeps between lookups has to be invisible.) -/
+theorem lookup_stateless (v : Variant) (tbl : Table α) (pre post : List (PHdr × Nat)) (x : PHdr × Nat) :
+    (v.lookupSeq tbl (pre ++ x :: post))[pre.length]? = some (v.entryForPacket tbl x.1 x.2) := by
+  simp [Variant.lookupSeq]
+
+open TableOps in
+/-- every answer in a sequence of lookups after any history is the standard's answer for that frame -/
+theorem history_lookup_sequence_wire (v : Variant) (ops : List (Op Spec.Flow))
+    (hadd : ∀ e ∈ added ops, e = v.toEntry e.data ∧ v.FlowOk e.data) (frames : List (PHdr × Nat))
+    (hf : ∀ x ∈ frames, v.regular x.1 = true ∧ pktTos x.1 % 4 = 0) (i : Nat) (hi : i < frames.length) :
+    ∃ r, (v.lookupSeq (run v.effectivePriority ops) frames)[i]? = some r ∧
+      Spec.IsBestSig ((run v.effectivePriority ops).map (·.data)) (Spec.headers frames[i].1 frames[i].2) (r.map (·.data)) := by
+  refine ⟨v.entryForPacket (run v.effectivePriority ops) frames[i].1 frames[i].2, by simp [Variant.lookupSeq, hi], ?_⟩
+  obtain ⟨h1, h2⟩ := hf frames[i] (List.getElem_mem hi)
+  exact history_lookup_wire v ops hadd frames[i].1 frames[i].2 h1 h2
+
 /-! ## the variants: what each repair buys -/
 
 /-- `matches_iff` for every variant: `PrereqExact` is needed only without repair D38, the 8-bit ARP opcode (inside `v.regular`) only
@@ -410,6 +431,13 @@ example : (Variant.repaired.ofWire { zeroMatch with wildcards := wc [.nwProto] 3
 example : (Variant.repaired.extract true (arpFrame 257) (some 1)).nwProto = some 1 ∧ Variant.repaired.regular (arpFrame 257) = true := by decide
 example : Variant.repaired.isWildcarded (Variant.repaired.ofWire arpExact) = false ∧ Spec.exactSig arpExact = true ∧
     Variant.head.isWildcarded (Variant.head.ofWire arpExact) = true := by decide
+
+-- sequences: two frames that differ only in ToS, both orders, on a table that discriminates on ToS
+def tosEntry : OfMatch := { zeroMatch with wildcards := wc [.dlType, .nwTos] 32 32, dlType := 0x0800, nwTos := 0xb8 }
+def tcpFrameEf : PHdr := { tcpFrame with l3 := .ipv4 0x0a010101 0x0a020202 6 0xb8 false (.ports 1000 80) }
+example : (Variant.repaired.lookupSeq (TableOps.run Variant.repaired.effectivePriority
+      [.add (Variant.repaired.toEntry ⟨200, tosEntry⟩), .add (Variant.repaired.toEntry ⟨10, inPort1⟩)])
+    [(tcpFrame, 1), (tcpFrameEf, 1), (tcpFrame, 1)]).map (fun r => r.map (·.data.priority)) = [some 10, some 200, some 10] := by decide
 
 -- subsumption: both outcomes
 example : (ofWire srcPrefix8).matchesWith true (ofWire tcpExact) = true := by decide
